@@ -46,6 +46,9 @@ FrameVec(type, p) == [type |-> type, payload |-> p, bytes |-> Frame(type, p),
                                           q |-> SubSeq(m.bytes, m.pos + 1, m.pos + 4), exp |-> "?"]
                                          : m \in FrameMutants(type, p)})]
 ASSUME \A type \in {1, 2, 8} : \A p \in FramePayloads : PrintT(<<"F", ToJson(FrameVec(type, p))>>)
+\* "B": values exactly at and just below a documented cap (list of values: 4096 elements)
+ASSUME \A n \in {ListValueCap - 1, ListValueCap} :
+         PrintT(<<"B", ToJson([kind |-> "list-of-values", n |-> n, bytes |-> ListOfVoidValues(n)])>>)
 ASSUME PrintT(<<"G", ToJson([metaobject |-> Sig(MetaObjectT), objref |-> Sig(ObjRefT),
                              serviceinfo |-> Sig(ServiceInfoT), capmap |-> Sig(CapabilityMapT)])>>)
 =============================================================================
